@@ -70,7 +70,8 @@ theorem parseLctHeader_total (d : List Nat) : (parseLctHeader d).isPanic = false
   rcases parseLctHeader_cases d with h | ⟨l, h, _⟩ <;> rw [h] <;> rfl
 
 /-- what `get_ext` guarantees about a returned extension -/
-structure ExtInv (ext : Nat) (r : List Nat) : Prop where
+structure ExtInv (e : List Nat) (ext : Nat) (r : List Nat) : Prop where
+  sub : ∀ b ∈ r, b ∈ e
   four_le : 4 ≤ r.length
   mod4 : r.length % 4 = 0
   het : r[0]? = some ext
@@ -78,7 +79,7 @@ structure ExtInv (ext : Nat) (r : List Nat) : Prop where
 
 theorem getExtLoop_cases (fuel : Nat) (e : List Nat) (ext : Nat) (hf : e.length ≤ fuel) :
     getExtLoop fuel e ext = .err ∨ getExtLoop fuel e ext = .ok none ∨
-    ∃ r, getExtLoop fuel e ext = .ok (some r) ∧ ExtInv ext r := by
+    ∃ r, getExtLoop fuel e ext = .ok (some r) ∧ ExtInv e ext r := by
   induction fuel generalizing e with
   | zero =>
     unfold getExtLoop
@@ -104,6 +105,7 @@ theorem getExtLoop_cases (fuel : Nat) (e : List Nat) (ext : Nat) (hf : e.length 
             have hl : ((e.drop 0).take (4 - 0)).length = 4 := by
               simp only [List.length_take, List.length_drop]; omega
             constructor
+            · intro b hb; exact List.mem_of_mem_drop (List.mem_of_mem_take hb)
             · omega
             · omega
             · simp only [List.drop_zero, Nat.sub_zero]
@@ -111,8 +113,12 @@ theorem getExtLoop_cases (fuel : Nat) (e : List Nat) (ext : Nat) (hf : e.length 
             · rw [hl, if_pos (by omega)]
           · rw [slice_ok _ _ _ (by omega) (by omega)]
             simp only [Out.bind_ok]
-            apply ih
-            simp only [List.length_take, List.length_drop]; omega
+            rcases ih (List.take (e.length - 4) (List.drop 4 e))
+              (by simp only [List.length_take, List.length_drop]; omega) with h | h | ⟨r, h, hr⟩
+            · exact .inl h
+            · exact .inr (.inl h)
+            · exact .inr (.inr ⟨r, h, ⟨fun b hb => List.mem_of_mem_drop (List.mem_of_mem_take (hr.sub b hb)),
+                hr.four_le, hr.mod4, hr.het, hr.len⟩⟩)
       · rename_i hhet
         rw [idx_ok e 1 (by omega)]
         simp only [Out.bind_ok]
@@ -127,6 +133,7 @@ theorem getExtLoop_cases (fuel : Nat) (e : List Nat) (ext : Nat) (hf : e.length 
             have hl : ((e.drop 0).take (e[1] * 4 - 0)).length = e[1] * 4 := by
               simp only [List.length_take, List.length_drop]; omega
             constructor
+            · intro b hb; exact List.mem_of_mem_drop (List.mem_of_mem_take hb)
             · omega
             · omega
             · simp only [List.drop_zero, Nat.sub_zero]
@@ -137,16 +144,24 @@ theorem getExtLoop_cases (fuel : Nat) (e : List Nat) (ext : Nat) (hf : e.length 
               simp only [Option.getD_some]; omega
           · rw [slice_ok _ _ _ (by omega) (by omega)]
             simp only [Out.bind_ok]
-            apply ih
-            simp only [List.length_take, List.length_drop]; omega
+            rcases ih (List.take (e.length - (e[1] * 4)) (List.drop (e[1] * 4) e))
+              (by simp only [List.length_take, List.length_drop]; omega) with h | h | ⟨r, h, hr⟩
+            · exact .inl h
+            · exact .inr (.inl h)
+            · exact .inr (.inr ⟨r, h, ⟨fun b hb => List.mem_of_mem_drop (List.mem_of_mem_take (hr.sub b hb)),
+                hr.four_le, hr.mod4, hr.het, hr.len⟩⟩)
     · exact .inr (.inl rfl)
 
 theorem getExt_cases (d : List Nat) (l : LctHeader) (ext : Nat) (h : HdrInv d l) :
-    getExt d l ext = .err ∨ getExt d l ext = .ok none ∨ ∃ r, getExt d l ext = .ok (some r) ∧ ExtInv ext r := by
+    getExt d l ext = .err ∨ getExt d l ext = .ok none ∨ ∃ r, getExt d l ext = .ok (some r) ∧ ExtInv d ext r := by
   unfold getExt
   rw [slice_ok _ _ _ h.ext_le_len h.len_le]
   simp only [Out.bind_ok]
-  exact getExtLoop_cases _ _ _ (Nat.le_refl _)
+  rcases getExtLoop_cases _ _ ext (Nat.le_refl _) with h | h | ⟨r, h, hr⟩
+  · exact .inl h
+  · exact .inr (.inl h)
+  · exact .inr (.inr ⟨r, h, ⟨fun b hb => List.mem_of_mem_drop (List.mem_of_mem_take (hr.sub b hb)),
+      hr.four_le, hr.mod4, hr.het, hr.len⟩⟩)
 
 theorem getExt_total (d : List Nat) (l : LctHeader) (ext : Nat) (h : HdrInv d l) :
     (getExt d l ext).isPanic = false := by
@@ -267,4 +282,144 @@ theorem getPayloadId_total (oti : Oti) (d : List Nat) (a p : Nat) (h1 : a ≤ p)
 
 end Fti
 
+namespace Alc
+
+theorem ntpToSystemTime_total (n : Nat) (h : n < 18446744073709551616) : (ntpToSystemTime n).isPanic = false := by
+  unfold ntpToSystemTime
+  simp only [Nat.reducePow]
+  split
+  · rfl
+  · split
+    · rfl
+    · rename_i h1 h2
+      exfalso; apply h2; omega
+
+theorem fld_lt (fti : List Nat) (hw : Wf fti) (i j : Nat) (h1 : i ≤ j) (h2 : j ≤ fti.length) :
+    ∃ v, fld fti i j = .ok v ∧ v < 256 ^ (j - i) := by
+  refine ⟨_, fld_ok fti i j h1 h2, ?_⟩
+  have := beVal_lt _ (wf_take (wf_drop hw i) (j - i))
+  rwa [length_slice _ _ _ h1 h2] at this
+
+theorem parseSct_total (ext : List Nat) (hw : Wf ext) (h : 4 ≤ ext.length) : (parseSct ext).isPanic = false := by
+  unfold parseSct
+  rw [if_neg (by omega), idx_ok ext 2 (by omega)]
+  simp only [Out.bind_ok]
+  split
+  · rfl
+  · rename_i hl
+    split
+    · rfl
+    · rename_i hhi
+      obtain ⟨secs, hs, hsl⟩ := fld_lt ext hw 4 8 (by omega) (by omega)
+      simp only [Nat.reducePow, Nat.reduceSub] at hsl
+      rw [hs, Out.bind_ok]
+      split
+      · rename_i hlo
+        obtain ⟨frac, hf, hfl⟩ := fld_lt ext hw 8 12 (by omega) (by omega)
+        simp only [Nat.reducePow, Nat.reduceSub] at hfl
+        rw [hf, Out.bind_ok]
+        apply Out.isPanic_bind
+        · apply ntpToSystemTime_total; omega
+        · intro v _; rfl
+      · rw [Out.bind_ok]
+        apply Out.isPanic_bind
+        · apply ntpToSystemTime_total; omega
+        · intro v _; rfl
+
+theorem parseExtFdt_total (ext : List Nat) : (parseExtFdt ext).isPanic = false := by
+  unfold parseExtFdt; split <;> rfl
+
+theorem parseCenc_total (ext : List Nat) : (parseCenc ext).isPanic = false := by
+  unfold parseCenc
+  split
+  · rfl
+  · rename_i h
+    rw [idx_ok ext 1 (by omega), Out.bind_ok]
+    split <;> rfl
+
+theorem cencOf_total (c : Option (List Nat)) : (cencOf c).isPanic = false := by
+  unfold cencOf
+  cases c with
+  | none => rfl
+  | some ext =>
+    have := parseCenc_total ext
+    simp only []
+    split
+    · rfl
+    · rfl
+    · rename_i w hw; rw [hw] at this; simp at this
+
+theorem fdtInfoOf_total (d : List Nat) (l : LctHeader) (h : HdrInv d l) : (fdtInfoOf d l).isPanic = false := by
+  unfold fdtInfoOf
+  split
+  · apply Out.isPanic_bind _ _ (getExt_total d l _ h)
+    intro r _
+    cases r with
+    | none => rfl
+    | some ext => exact parseExtFdt_total ext
+  · rfl
+
+/-- an accepted packet: the header invariant and the payload-id window lie inside the datagram -/
+structure PktInv (d : List Nat) (p : AlcPkt) : Prop where
+  hdr : HdrInv d p.lct
+  known : knownFec p.lct.cp = true
+  off_le : p.alcHeaderOffset ≤ p.payloadOffset
+  pay_le : p.payloadOffset ≤ d.length
+
+theorem parseAlcPkt_cases (d : List Nat) :
+    parseAlcPkt d = .err ∨ ∃ p, parseAlcPkt d = .ok p ∧ PktInv d p := by
+  unfold parseAlcPkt
+  rcases parseLctHeader_cases d with h | ⟨l, h, hinv⟩
+  · rw [h]; exact .inl rfl
+  · rw [h, Out.bind_ok]
+    split
+    · exact .inl rfl
+    · rename_i hk
+      simp only [Bool.not_eq_true, Bool.not_eq_false] at hk
+      simp only []
+      split
+      · exact .inl rfl
+      · rename_i hlen
+        have h1 := getFti_total l.cp d l hinv hk
+        cases hf : getFti l.cp d l with
+        | panic w => rw [hf] at h1; simp at h1
+        | err => exact .inl rfl
+        | ok fti =>
+          rw [Out.bind_ok]
+          have h2 := getExt_total d l EXT_CENC hinv
+          cases hc : getExt d l EXT_CENC with
+          | panic w => rw [hc] at h2; simp at h2
+          | err => exact .inl rfl
+          | ok cencExt =>
+            rw [Out.bind_ok]
+            have h3 := cencOf_total cencExt
+            cases hcc : cencOf cencExt with
+            | panic w => rw [hcc] at h3; simp at h3
+            | err => exact .inl rfl
+            | ok cenc =>
+              rw [Out.bind_ok]
+              have h4 := fdtInfoOf_total d l hinv
+              cases hfd : fdtInfoOf d l with
+              | panic w => rw [hfd] at h4; simp at h4
+              | err => exact .inl rfl
+              | ok fdtInfo =>
+                rw [Out.bind_ok]
+                refine .inr ⟨_, rfl, ?_⟩
+                constructor
+                · exact hinv
+                · exact hk
+                · dsimp only; omega
+                · dsimp only; omega
+
+theorem getSenderCurrentTime_total (d : List Nat) (hw : Wf d) (p : AlcPkt) (h : PktInv d p) :
+    (getSenderCurrentTime d p).isPanic = false := by
+  unfold getSenderCurrentTime
+  rcases getExt_cases d p.lct EXT_TIME h.hdr with he | he | ⟨r, he, hr⟩
+  · rw [he]; rfl
+  · rw [he]; rfl
+  · rw [he, Out.bind_ok]
+    -- the extension is a slice of the datagram, hence made of bytes
+    exact parseSct_total r (fun b hb => hw b (hr.sub b hb)) hr.four_le
+
+end Alc
 end Flute
